@@ -68,10 +68,10 @@ func c11Raw(kind, v int) []byte {
 	case c11KGet:
 		return []byte(pick(
 			"GET /get/a?x=1&y=2&x=3 HTTP/1.1\r\nHost: c11a.example\r\nUser-Agent: ua-a\r\ncookie: sid=abc; theme=dark\r\nx-custom-one: one\r\nX-Multi: m1\r\nX-Multi: m2\r\nReferer: http://r/a\r\n\r\n",
-			"GET /get/b?z=9 HTTP/1.1\r\nHost: c11b.example\r\nCookie: only=1\r\n\r\n"))
+			"GET /get/b?z=9&debug HTTP/1.1\r\nHost: c11b.example\r\nCookie: only=1; bare\r\n\r\n")) // variant 1 ends its query and cookie list in a bare key: the slot held a value in variant 0
 	case c11KPostForm:
-		return []byte("POST /form" + pick("/a?q=1", "/b") + " HTTP/1.1\r\nHost: c11.example\r\nContent-Type: application/x-www-form-urlencoded\r\n" +
-			pick("X-Form: f0\r\nCookie: fc=1\r\n", "") + cl(pick("a=1&b=two&a=3", "c=9")))
+		return []byte("POST /form" + pick("/a?q=1&r=2", "/b?p=1&flagq") + " HTTP/1.1\r\nHost: c11.example\r\nContent-Type: application/x-www-form-urlencoded\r\n" +
+			pick("X-Form: f0\r\nCookie: fc=1\r\n", "") + cl(pick("a=1&b=two&a=3", "c=9&flag"))) // variant 1: urlencoded body ending in a bare key
 	case c11KMultipart:
 		b := pick("bndA", "bndB")
 		body := "--" + b + "\r\nContent-Disposition: form-data; name=\"f1\"\r\n\r\nv1" + pick("a", "b") + "\r\n"
@@ -640,11 +640,20 @@ func c11CheckAgainstNetHTTP(kind int, raw []byte, s *c11Snap) string {
 	if c11JSON(want) != c11JSON(got) {
 		return fmt.Sprintf("headers: net/http %v, fasthttp %v", want, got)
 	}
-	var ck []string
+	// a cookie-pair without '=' is a nameless value for fasthttp and a valueless name for net/http: the
+	// cross-check covers the proper pairs, the fresh-server baseline covers the rest
+	var ck, fk []string
 	for _, c := range req.Cookies() {
-		ck = append(ck, c.Name+"="+c.Value)
+		if c.Name != "" && c.Value != "" {
+			ck = append(ck, c.Name+"="+c.Value)
+		}
 	}
-	if c11JSON(ck) != c11JSON(s.Cookies) {
+	for _, c := range s.Cookies {
+		if !strings.HasPrefix(c, "=") && !strings.HasSuffix(c, "=") {
+			fk = append(fk, c)
+		}
+	}
+	if c11JSON(ck) != c11JSON(fk) {
 		return fmt.Sprintf("cookies: net/http %v, fasthttp %v", ck, s.Cookies)
 	}
 	if c11JSON(c11SortedQuery(req.URL.RawQuery)) != c11JSON(c11Sorted(s.QueryArgs)) {
@@ -898,7 +907,7 @@ func TestVerif_C11(t *testing.T) {
 		return
 	}
 	r.Rule("all histories of 1..3 (thorough: 1..4) requests over 12 (13 with HeaderReceived) request kinds {GET with query+cookies+headers, POST urlencoded, POST multipart, chunked POST (+trailer), Expect accepted, Expect rejected (body withheld), " +
-		"parse error, body over MaxRequestBodySize, hijack, 12 KB body the handler leaves unread, handler SetConnectionClose, HEAD} (variant = position mod 2 so that neighbours differ), " +
+		"parse error, body over MaxRequestBodySize, hijack, 12 KB body the handler leaves unread, handler SetConnectionClose, HEAD} (variant = position mod 2 so that neighbours differ; variant 1 of GET and POST-urlencoded ends its query string, urlencoded body and Cookie header in a bare key whose slot held a value in variant 0), " +
 		"each later request either on the same connection or opening the second connection (served after the first returned, same Server, so that the pooled RequestCtx is reused; repeated until reuse is observed), " +
 		"x ReduceMemoryUsage x StreamRequestBody x {ContinueHandler, ExpectHandler} x Server.HeaderReceived {unset, set: RequestConfig{MaxRequestBodySize 64 KiB, Read/WriteTimeout} for /granted/ paths and the zero config otherwise; adds a 13th kind, a body over the server limit but within the grant}. The handler snapshots method, RequestURI, path, query, host, every header (VisitAll and in order), cookies, body, query/post args, multipart values, " +
 		"user values (VisitUserValues, VisitUserValuesAll), response status/headers/cookies/body/flags and Hijacked BEFORE mutating all of them (user values incl. an io.Closer, response, URI().SetPath, DisableNormalizing, HijackSetNoResponse, ...). " +
@@ -912,11 +921,12 @@ func TestVerif_C11(t *testing.T) {
 	r.Set("histories_enumerated", len(hs))
 	const batch = 64
 	nb := (len(hs) + batch - 1) / batch
+	var capOnce sync.Once
 	r.Par(nb, func(b int) {
 		n := 0
 		for i := b; i < len(hs); i += nb {
 			if r.Expired() {
-				r.NotExhaustive("time budget reached")
+				capOnce.Do(func() { r.NotExhaustive("time budget reached") })
 				break
 			}
 			h := hs[i]
